@@ -52,7 +52,6 @@ fn split_nodes_at_first_choice(nodes: &[Node]) -> (&[Node], &[Node], &[Node]) {
 enum ChoiceEmissionMode {
     Flat,
     ThreadedLoopLabel { loop_label: String },
-    ThreadedAnonGather,
 }
 
 struct WeaveChoiceSection<'a> {
@@ -97,55 +96,6 @@ fn nodes_contain_choice(nodes: &[Node]) -> bool {
     false
 }
 
-fn choice_block_contains_nested_choices(choices: &[Node]) -> bool {
-    choices.iter().any(|node| {
-        if let Node::Choice(choice) = node {
-            nodes_contain_choice(&choice.body)
-        } else {
-            false
-        }
-    })
-}
-
-fn choice_is_invisible_default(choice: &Choice) -> bool {
-    choice.start_text.trim().is_empty() && choice.choice_only_text.trim().is_empty()
-}
-
-fn choice_block_has_invisible_default(choices: &[Node]) -> bool {
-    choices.iter().any(|node| {
-        if let Node::Choice(choice) = node {
-            choice_is_invisible_default(choice)
-        } else {
-            false
-        }
-    })
-}
-
-fn should_use_threaded_anon_gather(
-    choices: &[Node],
-    continuation: &[Node],
-    scope: &EmitScope,
-) -> bool {
-    let continuation = skip_leading_newlines(continuation);
-
-    if !matches!(continuation.first(), Some(Node::GatherPoint)) {
-        return false;
-    }
-
-    if scope.path.contains(".c-") {
-        return false;
-    }
-
-    if !scope.path.contains('.')
-        || choice_block_contains_nested_choices(choices)
-        || choice_block_has_invisible_default(choices)
-    {
-        return false;
-    }
-
-    true
-}
-
 fn analyze_weave_choice_section<'a>(
     choices: &'a [Node],
     continuation: &'a [Node],
@@ -180,15 +130,6 @@ fn analyze_weave_choice_section<'a>(
             choices,
             continuation_nodes: continuation_tail,
             mode: ChoiceEmissionMode::ThreadedLoopLabel { loop_label },
-        };
-    }
-
-    if should_use_threaded_anon_gather(choices, continuation, scope) {
-        return WeaveChoiceSection {
-            prefix_nodes: &[],
-            choices,
-            continuation_nodes: continuation,
-            mode: ChoiceEmissionMode::ThreadedAnonGather,
         };
     }
 
